@@ -61,9 +61,14 @@ finally:
     sh("git checkout -- . && git clean -fdq -e _seed -e _TASK.md", cwd=wt)
 print("demo clean rc=%s mutated rc=%s suite: %s" % (meta["demo_clean_rc"], meta.get("demo_mutated_rc"), meta.get("suite_tail")))
 
-# ---- run our checks on /repo with the patch
-if sh("git -C /repo status --porcelain --untracked-files=no").stdout.strip():
-    sys.exit("/repo not clean")
+# ---- run our checks with the patch applied to a scratch worktree at /repo's HEAD (VERIF_REPO points the checks at it;
+# equivalent to `git -C /repo apply` + run + `git -C /repo checkout -- .`, but leaves /repo free for other work)
+RUN = "/tmp/wt_seedrun"
+head = sh("git -C /repo rev-parse HEAD").stdout.strip()
+if not os.path.isdir(RUN):
+    sh("git -C /repo worktree add -q --detach %s %s" % (RUN, head))
+sh("git -C %s checkout -q --detach %s && git -C %s checkout -- . && git -C %s clean -fdq" % (RUN, head, RUN, RUN))
+meta["repo_head"] = head
 props = (a.props or a.prop).split(",")
 keep = tempfile.mkdtemp(prefix="seed_keep_")
 for p in props:
@@ -73,10 +78,10 @@ for p in props:
 before = set(glob.glob(os.path.join(HERE, "replays", "*", "*.json")))
 meta["checks"] = {}
 try:
-    if sh(["git", "-C", "/repo", "apply", diff]).returncode != 0:
-        sys.exit("diff does not apply to /repo")
+    if sh(["git", "-C", RUN, "apply", diff]).returncode != 0:
+        sys.exit("diff does not apply to /repo HEAD")
     for p in props:
-        e2 = dict(os.environ, VERIF_SEED=a.seed, VERIF_NO_SHRINK="1")
+        e2 = dict(os.environ, VERIF_SEED=a.seed, VERIF_NO_SHRINK="1", VERIF_REPO=RUN)
         r = sh(["/venv/bin/python", os.path.join(HERE, "vcheck.py"), p, "--tier", a.tier], cwd=HERE, env=e2, timeout=7200)
         lines = [ln for ln in r.stdout.split("\n") if ln.startswith("violation bucket") or ln.startswith("VIOLATION") or
                  ln.startswith("regression replay") or ln.startswith(p + " ")]
@@ -88,7 +93,7 @@ try:
         if r.returncode == 2:
             print(r.stdout[-1500:], r.stderr[-800:])
 finally:
-    sh("git -C /repo checkout -- .")
+    sh("git -C %s checkout -- . && git -C %s clean -fdq" % (RUN, RUN))
     for fpath in set(glob.glob(os.path.join(HERE, "replays", "*", "*.json"))) - before:
         os.remove(fpath)
     for p in props:
